@@ -109,6 +109,25 @@ Theorem C02_mainq_sync_ran_once : forall m prio rb s t,
 Proof. exact mainq_sync_ran_once. Qed.
 Print Assumptions C02_mainq_sync_ran_once.
 
+(* no lost wake-up for a synchronous caller.  `stage` (Proofs/MainQ_inv.v) is 3 from the tail exchange of the caller's
+   context to the decrement of its thread event and 4 from there to the end of the wait.  Until the bound thread has
+   stored the signal (w_sigd) the context is still owed its run: it is in the queue's list, in the bound thread's
+   snapshot, popped / running on the bound thread, or has run and the bound thread is at the signalling store; and a
+   caller that is asleep in futex_wait after the signal without a wake-up has the bound thread at the futex_wake for
+   it.  With C02_mainq_not_stranded and C02_mainq_drain_waits_not_stuck the bound thread gets there. *)
+Theorem C02_mainq_sync_wakeup_not_lost : forall m prio rb s t,
+  valid_tid m -> 0 <= rb < 2 -> mreach m prio rb s ->
+  3 <= stage (mpcs s t) (pcs (lane s) t) <= 4 ->
+  let i := w_item (ws s t) in
+  waiter_of s i = t /\
+  (w_sigd (ws s t) = false ->
+     In i (ids (lst (lane s))) \/ In i (ids (snap s)) \/
+     (exists w more, mpcs s (mtid s) = MB_run i w more \/ mpcs s (mtid s) = MB_incall i w more) \/
+     (exists more, mpcs s (mtid s) = MB_sig t more)) /\
+  (w_sigd (ws s t) = true -> mpcs s t = MS_sleep -> w_wok (ws s t) = true \/ exists more, mpcs s (mtid s) = MB_fwake t more).
+Proof. exact mainq_sync_wakeup_not_lost. Qed.
+Print Assumptions C02_mainq_sync_wakeup_not_lost.
+
 (* the barrier-sync fast path refuses the thread-bound word (owner bits set): the caller always queues its context *)
 Theorem C02_mainq_sync_never_fast : forall m prio rb, valid_tid m -> 0 <= rb < 2 -> forall s t q,
   mreach m prio rb s -> mpcs s t = MS_fast q \/ mpcs s t = MS_prep q ->
